@@ -621,6 +621,14 @@ parse_crash(const char *path, int status, char *sig, size_t sigl, char *msg, siz
           char norm[100];
           size_t o = 0;
           for (char *q = what; *q && o + 2 < sizeof norm; q++) {
+            if (q[0] == '0' && q[1] == 'x') {
+              q += 2;
+              while ((*q >= '0' && *q <= '9') || (*q >= 'a' && *q <= 'f'))
+                q++;
+              q--;
+              norm[o++] = '@';
+              continue;
+            }
             if (*q >= '0' && *q <= '9') {
               if (o == 0 || norm[o - 1] != '#')
                 norm[o++] = '#';
@@ -1713,6 +1721,8 @@ vxp_enumerate(const struct vxp_config *cfg, vxp_case_fn fn, void *arg, struct vx
   while (alive > 0) {
     int st;
     pid_t pid = waitpid(-1, &st, 0);
+    if (pid < 0 && errno == EINTR)
+      continue;
     if (pid <= 0)
       break;
     int w;
